@@ -30,9 +30,9 @@ instance (w : World) : Decidable (idle w) := by unfold idle; exact inferInstance
 
 /-- a freshly built object with the given values, watchers and Parameter attributes -/
 def fresh (vals : List Int) (regs : List Watcher) (slotVals : List ((Nat × Nat) × Int))
-    (slotKeys : List (Nat × Nat)) (ncalls : Nat) : World :=
+    (slotKeys : List (Nat × Nat)) (ncalls : Nat) (nreg : Nat := 0) : World :=
   { vals := vals, regs := regs, batch := false, trigger := false, events := [], queued := [], setMode := [],
-    slotVals := slotVals, slotKeys := slotKeys, ncalls := ncalls }
+    slotVals := slotVals, slotKeys := slotKeys, ncalls := ncalls, nreg := nreg }
 
 /-- **C05 (flags).**  Whatever a call does and however it ends — normally, with a rejected value,
 with an exception from a callback or a context body at any depth — the batching flag and the
@@ -67,7 +67,7 @@ theorem idle_in_idle_out_program (c : Cfg) (f : Nat) (l : List Stmt) (w : World)
 
 /-- **C05 (behaves like a fresh twin).**  An idle dispatcher has no hidden state: it *is* the
 freshly built object with the same values and watchers, so every later call behaves identically. -/
-theorem idle_is_fresh (w : World) (hi : idle w) : w = fresh w.vals w.regs w.slotVals w.slotKeys w.ncalls := by
+theorem idle_is_fresh (w : World) (hi : idle w) : w = fresh w.vals w.regs w.slotVals w.slotKeys w.ncalls w.nreg := by
   obtain ⟨hb, ht, he, hq, hm⟩ := hi
   cases w
   simp_all [fresh]
@@ -75,7 +75,7 @@ theorem idle_is_fresh (w : World) (hi : idle w) : w = fresh w.vals w.regs w.slot
 theorem behaves_like_fresh_twin (c : Cfg) (f g : Nat) (s : Stmt) (next : Call) (w : World) (hi : idle w)
     (h : (run c f (.stmt s) w).1 ≠ .oof) :
     let w' := (run c f (.stmt s) w).2.1
-    run c g next w' = run c g next (fresh w'.vals w'.regs w'.slotVals w'.slotKeys w'.ncalls) := by
+    run c g next w' = run c g next (fresh w'.vals w'.regs w'.slotVals w'.slotKeys w'.ncalls w'.nreg) := by
   intro w'
   have := idle_is_fresh w' (idle_in_idle_out c f s w hi h)
   rw [← this]
@@ -97,7 +97,7 @@ theorem deferred_stays_deferred (c : Cfg) (f : Nat) (s : Stmt) (w : World) (hb :
     (run c f (.stmt s) w).2.1.batch = true ∧
     (run c f (.stmt s) w).2.1.ncalls = w.ncalls ∧
     (∀ e ∈ w.events, e ∈ (run c f (.stmt s) w).2.1.events) ∧
-    (∀ x ∈ w.queued, x.id ∈ (run c f (.stmt s) w).2.1.queued.map (·.id)) := by
+    (∀ x ∈ w.queued, x.uid ∈ (run c f (.stmt s) w).2.1.queued.map (·.uid)) := by
   have h1 := (flags c f (.stmt s) w h).1
   have h2 := silent_in_batch c f (.stmt s) w h hb rfl
   have h3 := deferred_kept c f (.stmt s) w h hb rfl
